@@ -161,10 +161,8 @@ def _view(case, v):
 @st.composite
 def _scope(draw, cands, n, repeats):
     """n variables among cands; with repeats allowed a variable may occur several times."""
-    if repeats:
+    if repeats or n > len(cands):
         return [draw(st.sampled_from(cands)) for _ in range(n)]
-    if n >= len(cands):
-        return list(draw(st.permutations(cands)))[:n]
     return list(draw(st.permutations(cands)))[:n]
 
 
